@@ -141,7 +141,7 @@ func TestC05(t *testing.T) {
 			}
 		}
 	}
-	total := 3000 / cfg.NShards
+	total := 20000 / cfg.NShards
 	ncli := 64 / cfg.NShards
 	if cfg.Thorough() {
 		total = 400000 / cfg.NShards
